@@ -25,6 +25,7 @@ from ..shims import to_dense
 PROP = 'C18'
 PLACEMENT = [
     ('two_node', dict(T=3), None),
+    ('two_node_discounted_daily', dict(T=3, freq='d', wacc=True), None),
     ('two_node_window_gap', dict(T=4, win_t=(1, 3)), None),
     ('windows_gap_two_nodes', dict(T=5, wins=((0, 2), (1, 2), (3, 5), (4, 5)), two_nodes=True), None),
     ('multicommodity', dict(T=3), None),
@@ -35,10 +36,10 @@ PLACEMENT = [
     ('split_first_asset_starts_inside_interval', dict(T=4, wins=((1, 4), (0, 4), (0, 3)), two_nodes=True), '2h'),
     ('split_first_asset_late_second_interval', dict(T=6, wins=((4, 6), (0, 6)), two_nodes=True), '3h'),
 ]
-SHAPE_OF = dict(split_first_asset_starts_inside_interval='windows', split_first_asset_late_second_interval='windows', two_node_window_gap='two_node', windows_gap_two_nodes='windows', split_two_node='two_node', split_unequal_intervals='two_node',
+SHAPE_OF = dict(two_node_discounted_daily='two_node', split_first_asset_starts_inside_interval='windows', split_first_asset_late_second_interval='windows', two_node_window_gap='two_node', windows_gap_two_nodes='windows', split_two_node='two_node', split_unequal_intervals='two_node',
                 late_second_node='late_node')
 INSTANCES = ['two_node', 'contract_storage', 'multicommodity', 'late_node', 'uncoupled', 'coarse',
-             'two_node@big', 'scaled@big', 'contract_storage@small']     # @big / @small: prices of the order 1e5 / 1e-4 (other currencies / units)
+             'two_node@big', 'scaled@big', 'contract_storage@small', 'orderbook', 'two_node_discounted', 'ext_transport']     # @big / @small: prices of the order 1e5 / 1e-4 (other currencies / units)
 SOLVERS = [None, 'CLARABEL', 'SCIPY']
 BOUNDS = dict(quick='placement: %s; supergradient certificate: 1 seeded instance of each of %s x solvers %s x all (node, step)' % ([p[0] for p in PLACEMENT], INSTANCES, SOLVERS),
               thorough='3 seeded instances per shape')
@@ -199,7 +200,11 @@ def instance_env(shape, k, seed):
     class Src(dict):
         def get(self, name, default=0.0):
             if name not in self:
-                if name.startswith('scale'):
+                if name.startswith('wacc'):
+                    v = rnd.choice([0.5, 1.0, 3.0])      # large rates so that discounting shows on short horizons
+                elif name.startswith('ob_price'):
+                    v = rnd.choice([1.0, 2.5, 4.0])
+                elif name.startswith('scale'):
                     v = 0.0 if name.endswith('_min') else rnd.choice([1.0, 2.0, 3.0])
                 elif name.startswith(('tr', 'itr', 'xt')) and name.endswith('_min'):
                     v = rnd.choice([0.0, 0.5])
@@ -227,7 +232,8 @@ def instance_env(shape, k, seed):
 
 
 SHAPE_KW = dict(two_node=dict(T=3), contract_storage=dict(T=4), multicommodity=dict(T=3, take=(0, 3)), late_node=dict(T=4),
-                uncoupled=dict(T=3), coarse=dict(T=4, kind='contract'), scaled=dict(T=3, base='storage'))
+                uncoupled=dict(T=3), coarse=dict(T=4, kind='contract'), scaled=dict(T=3, base='storage'), orderbook=dict(T=3, wacc=True, freq='d'),
+                two_node_discounted=dict(T=3, freq='d', wacc=True), ext_transport=dict(T=3))
 
 
 def observe(case, kwargs, env, rq):
@@ -253,7 +259,7 @@ def marginal_check(shape, k, seed):
     obligations, violations, samples = [], [], []
     t_solver = 0.0
     for sv in SOLVERS:
-        sh = shapes.build_portfolio(D, shape.split('@')[0], **SHAPE_KW[shape.split('@')[0]])
+        sh = shapes.build_portfolio(D, {'two_node_discounted': 'two_node'}.get(shape.split('@')[0], shape.split('@')[0]), **SHAPE_KW[shape.split('@')[0]])
         op = sh.portf.setup_optim_problem(sh.prices, sh.tg)
         try:
             res = op.optimize(solver=sv) if sv else op.optimize()
@@ -284,6 +290,12 @@ def marginal_check(shape, k, seed):
         # row of each pair from the support
         for (node, t) in pairs:
             supp = {int(i) for i, r in op.mapping.iterrows() if r['type'] == 'd' and r['node'] == node and int(r['time_step']) == t}
+            # the balance in physical units, from the dispatch factors of the mapping (not from the matrix row, which may be scaled)
+            phys = {}
+            for i, r in op.mapping.iterrows():
+                if r['type'] == 'd' and r['node'] == node and int(r['time_step']) == t:
+                    f_ = r['disp_factor'] if 'disp_factor' in op.mapping.columns and not pd.isna(r['disp_factor']) else 1.0
+                    phys[int(i)] = phys.get(int(i), 0.0) + float(f_)
             rr = [r for r in nrow if {j for j in range(n) if A[r, j] != 0} == supp]
             nm = '%s/supergradient/%s/%d' % (tag, node, t)
             col = 'nodal price: ' + node
@@ -298,7 +310,7 @@ def marginal_check(shape, k, seed):
             s.add(*common_cs)
             for r, (lhs, ty, b) in enumerate(rows):
                 if r == r0:
-                    s.add(lhs + d == b)
+                    s.add(z3.Sum([fr(v_) * x[i_] for i_, v_ in phys.items()]) + d == 0)
                 else:
                     s.add(lhs <= b if ty == 'U' else (lhs >= b if ty == 'L' else lhs == b))
             tol = 1e-6 * (1.0 + abs(V))
